@@ -61,7 +61,7 @@ MANIFEST = dict(
 )
 FLOORS = {"C18.1": 2, "C18.2": 4, "C18.3": 2, "C18.4": 3, "C18.5": 3,
           "C18.6": 4, "C18.7": 4, "C18.8": 4, "C18.9": 1,
-          "C18.10": 6}
+          "C18.10": 2}
 
 MC = "evo.main_config."
 ST = "evo.tools.settings."
